@@ -54,8 +54,17 @@ class TreeStream(VerdictOracle, Stream):
             "inside a Git repository (covered files tracked or not) that ignores 1-3 groups of entries - directories `/build/`, `build/`, "
             "`/src/out/`, `/tmp/`, files `/info`, `/notes.txt`, `/src/gen`, `/cache`, a glob `*.log`, some carrying licence tags - next to "
             "covered files whose names merely begin like an ignored entry (`build.gradle`, `builder/m.c`, `notes.txt.in`, "
-            "`src/output.c`, `run.log.txt`) or are a beginning of one (`buil`, `inf`, `src/ou`, `b`); one in forty through the "
-            "multiprocessing pool) with zero, one or 2-5 injected "
+            "`src/output.c`, `run.log.txt`) or are a beginning of one (`buil`, `inf`, `src/ou`, `b`); three trees in ten hold covered files in "
+            "directories whose names have the name of an exempt directory as a proper prefix, a proper suffix, in the middle or in another case "
+            "(`.github/workflows/`, `.hgpatches`, `LICENSES-thirdparty`, `x.git`, `my.reuse`, `OLD-LICENSES`, `a.reuse.b`, `licenses`, `.GIT`; 40 names, at "
+            "top level, below `src/`, `docs/deep/`, inside one another) or covered regular files called `.hg`, `.sl`, `.reuse`, `LICENSES`; three trees "
+            "in ten reach some of their licence texts through symbolic links: 1-3 entries of LICENSES/ are links to a regular file (another text "
+            "of LICENSES/, `../COPYING-n` and the like elsewhere in the project, a hidden store below LICENSES/, a file outside the project, a link "
+            "to a link; relative or absolute), a sub-directory of LICENSES/ (an existing one, a new one into which 1-3 entries move, now and then "
+            "LICENSES itself) is a link to a directory (`vendor/LICENSES`, below .reuse/, a hidden directory of LICENSES/, a directory outside the "
+            "project), and a dangling link named like a licence text (used-but-missing, deprecated, unknown or current identifier, with or without "
+            "extension) is no licence text at all — a link is named by its own name, so the ground truth of the categories does not change; one in "
+            "forty through the multiprocessing pool, under a time limit) with zero, one or 2-5 injected "
             "defects of 22 kinds (an ill-formed LicenseRef- look-alike (underscore, non-ASCII, colon, empty tail) used and provided, "
             "a text provided under a related name (X / X+ / X-only / X-or-later) only, missing, unused, bad used / provided, wrong case, deprecated, no extension, no copyright, no licence, "
             "neither, read error through a FIFO, LicenseRef- missing / without extension, only ID+ provided, empty notice in REUSE.toml, "
@@ -97,7 +106,9 @@ PROPERTY = Property(
         "libraries): binaryornot, tomlkit (REUSE.toml as its list of tables), python-debian (.reuse/dep5 as its paragraphs), "
         "license-expression (parses?, keys, rendering); no VCS in that stream",
         "outside the composed model: special files (FIFOs), symlinks below LICENSES/, a live symlink as FILE.license, a dep5 licence "
-        "synopsis that does not parse",
+        "synopsis that does not parse (streams trees / cells have them: symbolic links below LICENSES/ to files and to directories, inside "
+        "and outside the project, dangling ones; oracle there: a link that resolves to a regular file is a licence text named by the link's "
+        "name, texts below a linked directory count like texts in any sub-directory, a dangling link is nothing)",
         "read errors are provoked with a FIFO (the sandbox runs as root, so permissions cannot be used)",
         "per-file failures that are not I/O errors are provoked with a dep5 License field that is no SPDX expression and with licence tags "
         "on which the expression parser fails internally",
